@@ -20,6 +20,16 @@ def _floors(scale):
         "embedded_nul_strings_exported": 15 * scale,
         "end_explicit": 200 * scale,
         "start_explicit": 200 * scale,
+        # start given on one clock only (C04-w4-1); seed 1: 285 / 280 / 115 / 91
+        "start_system_only": 80 * scale,
+        "start_steady_only": 80 * scale,
+        "verified_start_system_only_explicit_end": 25 * scale,
+        "verified_start_steady_only_explicit_end": 25 * scale,
+        # TracerProvider::AddProcessor while spans are open (C04-w4-2); seed 1: 1299 / 307 / 1226 / 566
+        "processors_added_while_span_open": 400 * scale,
+        "processors_added_while_span_open_to_single": 90 * scale,
+        "spans_verified_open_across_add_processor": 400 * scale,
+        "spans_verified_started_after_add_processor": 150 * scale,
         "retained_rechecked": 300 * scale,
         # provider destroyed (no ForceFlush/Shutdown, all tracer handles dropped) with ended spans of two tracers still
         # queued in a batch processor; smallest values at seeds {1,2,3,7,42}: 253 / 1031 / 513
@@ -63,15 +73,20 @@ SPEC = {
                    "the exporters under /repo/exporters are not reached"),
     "rule": ("seq: case i = one seeded provider (1..4 processors drawn from simple, batch(queue 4..64, delay 1..20 ms), "
              "custom logging-recordable processor; some added with AddProcessor; 1..2 tracers) and 1..3 interleaved span "
-             "programs: StartSpan through 5 API overloads (kind, explicit/default start on both clocks, parent, 0..6 "
+             "programs: StartSpan through 5 API overloads (kind, start explicit on both clocks / on the system clock only / "
+             "on the steady clock only (back-dated, tiny, ahead of the clock) / default, parent, 0..6 "
              "attributes, 0..4 links), 0..40 calls from {SetAttribute over all 16 AttributeValue alternatives, 4 AddEvent "
              "overloads, SetStatus, UpdateName, AddLink/AddLinks in ABI v2}, End with or without options or dropping the "
              "last reference, then 0..8 calls on the ended span incl. End again. Every key, string, array, container and "
              "name is an exact-size heap block scribbled or freed right after the call. After End (+ForceFlush when a batch "
              "processor is present) every processor must have exactly one copy equal to the model; retained recordables "
-             "are re-read at the end of the case; counts are re-checked after Shutdown. Half of the cases with two tracers and a "
-             "batch processor (then built with a one-hour schedule delay, i.e. exporting only on ForceFlush/Shutdown/"
-             "destruction) end with 1..2 more spans per tracer (0..6 calls each) that are ended but NOT flushed: all span and "
+             "are re-read at the end of the case; counts are re-checked after Shutdown. In a third of the cases 1..2 more "
+             "processors are added with TracerProvider::AddProcessor at seeded points while at least one span is open: every "
+             "processor configured when a span was started must still receive it exactly once and complete, the new processor "
+             "must receive every span started after it was added and nothing of spans ended before. Half of the cases with two tracers and a "
+             "batch processor (then built with a 3 s schedule delay, i.e. exporting on ForceFlush/Shutdown/"
+             "destruction unless a case takes that long; a copy exported by the timer is judged alike and counted as "
+             "teardown_spans_exported_early) end with 1..2 more spans per tracer (0..6 calls each) that are ended but NOT flushed: all span and "
              "tracer handles are dropped and the provider is destroyed without ForceFlush/Shutdown; the copies exported during "
              "that tear-down drain (the exporter reads name/version/schema of the scope and the resource attributes at Export "
              "time) are compared with the model like any other, a missing or duplicate copy is class "
@@ -85,9 +100,16 @@ SPEC = {
         "status: last SetStatus wins as documented in api/include/opentelemetry/trace/span.h; the description is judged only "
         "when the final code is Error (the OpenTelemetry specification lets an SDK drop it for Ok/Unset) - counted as "
         "status_description_dontcare",
-        "an explicit start must give both clocks (documented precondition of StartSpanOptions); programs giving only one are "
-        "run but start time and duration are not judged (start_half_explicit_dontcare); an explicit timestamp of exactly 0 "
+        "a start given on one clock only (StartSpanOptions asks for both, but the property quantifies over every combination "
+        "of start/end options): judged by the reading that loses nothing the caller gave - the given clock is taken as is, "
+        "the other one defaults to 'now' on its own; start time = the given system time, or "
+        "within the harness' system-clock reads around StartSpan; duration = end - start on the steady clock with every "
+        "default side bracketed by the harness' steady-clock reads around StartSpan / End (only the order of clock reads, "
+        "no tolerance); an explicit timestamp of exactly 0 "
         "is indistinguishable from 'not set' in the API and is not generated for start/end",
+        "whether a processor added while a span is open receives that span is not judged "
+        "(open_span_[not_]seen_by_added_processor_dontcare); AddProcessor is only called from the thread that runs the "
+        "spans (seq mode)",
         "default timestamps are judged by bracketing with the harness' own reads of the same clock immediately before and "
         "after the call",
         "link contexts are always valid (the specification allows dropping links with an invalid context); attribute keys are "
